@@ -161,6 +161,8 @@ var verifTwoArgFns = []struct {
 	{"JSON.stringify", 5}, {"JSON.parse", 5},
 	{"Number.prototype.toString", 3}, {"Number.prototype.toFixed", 3}, {"Number.prototype.toPrecision", 3},
 	{"RegExp.prototype.exec", 5}, {"RegExp.prototype.test", 5}, {"Date.UTC", 5},
+	{"String.prototype.startsWith", 4}, {"String.prototype.charCodeAt", 4},
+	{"Object.assign", 5}, {"Object.getOwnPropertyDescriptor", 5}, {"Object.keys", 5}, {"Number.prototype.toLocaleString", 3},
 }
 
 var verifArgKinds = []int{0, 3, 4, 5, 6, 7}
